@@ -29,4 +29,13 @@ CLAIMS['C05'] = {
             'subpackets, the four header octets, and a symbolic single-bit flip of the region. Bounded model checking.',
     'note': 'Trusted: CrossHair, shims, the packet assembler in harness/c05.py. Bounds: bodies of a few symbolic octets (time octets from {00,7F,80,FF}; one fingerprint octet from 16 values), '
             'well-formed fixed-size subpackets only, v4 only. Three genuine defects were repaired (fix: 7eafd51, e71c98b, 37a3e74).'}
+CLAIMS['C12'] = {
+    'technique': 'SMT translation of the count/copies/remainder arithmetic sliced from derive_key (unbounded length, 3 solvers) + bounded symbolic execution of derive_key with a recording hash',
+    'enginea': True,
+    'text': 'O12.1 slices the statements computing count, hcount and hleft out of the current derive_key source, translates them and the coded-count getter to SMT and proves for every '
+            'passphrase length (unbounded integer) and all 256 coded counts that the stream is max(decoded count, L) octets made of whole copies plus a proper remainder, with no division by zero. '
+            'O12.3a/b execute the real derive_key symbolically with hashlib replaced by a recorder and decide, for symbolic salt and passphrase octets, that context i is fed i zero octets followed by the RFC stream '
+            '(simple, salted, and iterated with 10..64-octet units and counts 1024..2176) and that the key is the digests in order, truncated. Bounded model checking.',
+    'note': 'Trusted: the recording hash (digest = function of length and 12 edge octets; inputs are compared directly as well), CrossHair, shim S8 (bytes*int as flat repetition), the RFC model spec_streams(). '
+            'Not decided: the hash functions; content for passphrases longer than the stated bounds (arithmetic covers every length). One genuine defect repaired (fix: 73fc9f5).'}
 NOT_APPLICABLE = {p: NB for p in ['C%02d' % i for i in range(1, 21)] if p not in CLAIMS}
